@@ -7,12 +7,12 @@ pc.install(globals(), "C09", "C09", "fork stages",
           "completion order the harness decides (release moves) and ungated runs x random schedules from VERIF_SEED with and "
           "without cancel, drained to completion. Distinct by full observed trace; non-trivial when a value was delivered or the run was cancelled"),
     claim={
-        "text": "Theorems proved by the Coq kernel for every worker count, input, capacity, distribution of elements over workers and completion order: in every reachable state the taken elements are a permutation-partition of the consumed input (each applied exactly once) and each output is a permutation of the image of what was taken (nothing lost, duplicated, invented); no send on a closed channel / double close; outputs close only after every worker returned; on completion every output is exactly the multiset the sequential stage delivers. Tied to the code by trace acceptance of gated synctest runs.",
+        "text": "Theorems proved by the Coq kernel for every worker count, input, capacity, distribution of elements over workers and completion order: in every reachable state the taken elements are a permutation-partition of the consumed input (each applied exactly once) and each output is a permutation of the image of what was taken (nothing lost, duplicated, invented); no send on a closed channel / double close; outputs close only after every worker returned; on completion every output is exactly the multiset the sequential stage delivers. Fail-fast mode (Lift/LiftF/Pure) with failing elements: the plain send `exx <- err` never blocks when par <= cap(exx) (with a proved witness that a smaller capacity leaks a goroutine even after cancel), so on cancel or drain every worker returns and both outputs close, and at most par errors are ever produced. Tied to the code by trace acceptance of gated synctest runs.",
         "design_ref": "DESIGN.md 2.1, 3/C09",
         "note": "Trusted: Coq kernel; Pool machine as model of Go channels/goroutines/WaitGroup; harness. NOT carried by the theorems: data-race freedom (Go memory model) - checked by the race detector in the thorough tier (testing, named as such); scheduler fairness.",
         "technique": "Coq proof (invariants over executions, permutation reasoning) + trace-acceptance correspondence",
     },
     assumptions=[
-        "user functions are total and side-effect free; fork stages under Lift (fail-fast) are outside the property",
+        "user functions are total and side-effect free; for fork stages under Lift (fail-fast) the theorems give safety, no-panic, exit and the error bound - not which prefix of the input is processed (a fail-fast stage legitimately stops short)",
         "data-race freedom is not modelled; the thorough tier runs the harness under the race detector",
     ])
